@@ -18,7 +18,7 @@ import random
 
 from .core import AnalysisError, Checker
 from .interp import Instance, Interp, InterpRaise, RepoClass, RepoFunc
-from .rewrites import FakeCircuit
+from .rewrites import FakeCircuit, FakeGate
 from .tables import Denotations, GateTypeVal, gate_overrides
 from . import semantics
 
@@ -210,6 +210,9 @@ HANDMADE = [
     ([('a', 'INPUT', ()), ('b', 'INPUT', ()), ('n1', 'NOT', ('a',)), ('n2', 'NOT', ('n1',)), ('i', 'IFF', ('b',)), ('g1', 'AND', ('a', 'b')), ('g2', 'AND', ('n2', 'i')), ('o', 'XOR', ('g1', 'g2'))], ['o', 'g2', 'g1']),
     # nothing but inputs as outputs
     ([('a', 'INPUT', ()), ('b', 'INPUT', ())], ['b', 'b', 'a']),
+    # chains whose unary gates are all negations / all buffers (the two post-conditions of MergeUnaryOperators), inner links read from outside
+    ([('x', 'INPUT', ()), ('y', 'INPUT', ()), ('n1', 'NOT', ('x',)), ('n2', 'NOT', ('n1',)), ('n3', 'NOT', ('n2',)), ('o', 'AND', ('n3', 'y'))], ['o', 'n3', 'n2']),
+    ([('x', 'INPUT', ()), ('y', 'INPUT', ()), ('b1', 'IFF', ('x',)), ('b2', 'IFF', ('b1',)), ('b3', 'IFF', ('b2',)), ('o', 'OR', ('b3', 'y'))], ['o', 'b3']),
 ]
 
 
@@ -230,6 +233,52 @@ def build(types, spec, outs, order='fwd'):
     c._outputs = list(outs)
     c.log.clear()
     return c
+
+
+class RealBench:
+    """Model circuits as instances of the repository's own Circuit class (its constructors, users bookkeeping and traversals
+    run as they stand), and their conversion into a PassModel snapshot so that the same judgement functions apply."""
+
+    def __init__(self, repo, max_steps=8_000_000):
+        from .eval_fold import real_model
+        self.repo = repo
+        self.M = real_model(repo)
+        it = self.it = self.M.interp
+        it.real_super = True
+        it.instance_dunders = True
+        it.max_steps = max_steps
+        it.max_depth = 120
+        for g in ('linearize_transformers', 'linearize_reduce_transformers', 'as_distinct'):
+            it.eager_generators.add(f'{TRANSFORMER}.{g}')
+        self.types = self.M.types
+
+    def circuit(self, spec, outs, users_first=False):
+        stored = spec
+        if users_first:
+            stored = [x for x in spec if x[1] == 'INPUT'] + [x for x in spec if x[1] != 'INPUT'][::-1]
+        return self.M.build_circuit(stored, outs)
+
+    def model(self, inst) -> 'PassModel':
+        d = inst._d
+        pm = PassModel(self.types['INPUT'])
+        for label, g in d['_gates'].items():
+            pm._gates[label] = FakeGate(g.label, self.types[g.gate_type.var], tuple(g.operands))
+        for k, v in d['_gate_to_users'].items():
+            if v:
+                pm._gate_to_users[k] = list(v)
+        pm._inputs = list(d['_inputs'])
+        pm._outputs = list(d['_outputs'])
+        return pm
+
+    def new_pass(self, modname, cname, **kw):
+        m = self.repo.mod(f'{SIMPL}.{modname}')
+        self.it.steps = 0
+        return self.it.instantiate(RepoClass(m, m.cls(cname)), (), kw)
+
+    def call(self, inst, name, *a, **k):
+        self.it.steps = 0
+        self.M.den.interp.steps = 0
+        return self.it.getattr(inst._cls.mod, None, inst, name)(*a, **k)
 
 
 def signature(g):
@@ -391,10 +440,51 @@ def fold_passes(ck: Checker, R_common: str, R_post: str | None = None, only=None
     P = Passes(repo)
     fam = family(ck.tier)
     n_runs = 0
+    # the same passes on instances of the repository's own Circuit class (constructors, users bookkeeping, dfs / top_sort as they
+    # stand): the hand-made circuits, stored operands-first and users-first, plus a slice of the seeded ones
+    RB = RealBench(repo)
+    real_passes = {}
+    for modname, cname, kwargs in (('remove_redundant_gates', 'RemoveRedundantGates', {}), ('remove_redundant_gates', 'RemoveRedundantGates', {'allow_inputs_removal': True}),
+                                   ('merge_unary_operators', 'MergeUnaryOperators', {}), ('merge_duplicate_gates', 'MergeDuplicateGates', {}), ('merge_equivalent_gates', 'MergeEquivalentGates', {})):
+        real_passes[cname + ('(allow_inputs_removal=True)' if kwargs else '')] = RB.new_pass(modname, cname, **kwargs)
+    real_fam = [(sp, ou, uf) for sp, ou in HANDMADE for uf in (False, True)] + [(sp, ou, False) for sp, ou in fam[len(HANDMADE):len(HANDMADE) + (12 if ck.tier == 'quick' else 60)]]
     for key, (m, fn, inst) in P.passes.items():
         if only and key.split('(')[0] not in only:
             continue
         common, post = [], []
+        oracle_model_applies = True
+        for spec, outs, users_first in real_fam:
+            n_runs += 1
+            desc = f'{[(l, t) + tuple(o) for l, t, o in spec if t != "INPUT"]} outputs {outs} (instance of the repository\'s Circuit class{", gates stored users-first" if users_first else ""})'
+            try:
+                rc = RB.circuit(spec, outs, users_first)
+                c = RB.model(rc)
+                before = c.struct()
+                rnew = RB.call(real_passes[key], '_transform', rc)
+            except InterpRaise as e:
+                common.append(f'raises {e.exc_name} on {desc}')
+                continue
+            if rnew is rc:
+                common.append(f'the pass returns its argument object instead of a new circuit on {desc}')
+                continue
+            if not isinstance(rnew, Instance):
+                common.append(f'the pass does not return a circuit on {desc}')
+                continue
+            after = RB.model(rc)
+            new = RB.model(rnew)
+            if after.struct() != before or after.users_index() != c.users_index():
+                common.append(f'the argument circuit was modified on {desc}')
+                continue
+            pr = check_result(c, new, key, before)
+            if pr:
+                common.append(f'{pr[0]} on {desc}')
+                continue
+            if R_post:
+                pp = post_problems(P, c, new, key)
+                if pp:
+                    post.append(f'{pp[0]} on {desc}')
+            if len(common) > 3 or len(post) > 3:
+                break
         for spec, outs in fam:
             for order in ('fwd', 'rev'):
                 c = build(P.types, spec, outs, order)
@@ -406,6 +496,12 @@ def fold_passes(ck: Checker, R_common: str, R_post: str | None = None, only=None
                 except InterpRaise as e:
                     common.append(f'raises {e.exc_name} on {desc}')
                     continue
+                except AnalysisError as e:
+                    # the pass uses a part of the Circuit interface the oracle-traversal model does not have: the runs on real
+                    # instances above have decided; the two-visiting-order runs are recorded as not applicable
+                    oracle_model_applies = False
+                    ck.notes.setdefault('structural_rules_not_applicable', []).append(f'oracle-traversal model of {key}: {str(e)[:160]} [decided on instances of the repository\'s Circuit class]')
+                    break
                 pr = check_result(c, new, key, before)
                 if pr:
                     common.append(f'{pr[0]} on {desc}')
@@ -414,9 +510,9 @@ def fold_passes(ck: Checker, R_common: str, R_post: str | None = None, only=None
                     pp = post_problems(P, c, new, key)
                     if pp:
                         post.append(f'{pp[0]} on {desc}')
-            if len(common) > 3 or len(post) > 3:
+            if len(common) > 3 or len(post) > 3 or not oracle_model_applies:
                 break
-        ck.check(not common, R_common, m, fn, f'{key} folded over {len(fam)} model circuits x 2 visiting orders: new circuit, argument untouched, same inputs (minus unreachable ones only on request), '
+        ck.check(not common, R_common, m, fn, f'{key} folded over {len(real_fam)} instances of the repository\'s Circuit class and {len(fam)} model circuits x 2 visiting orders of an oracle traversal: new circuit, argument untouched, same inputs (minus unreachable ones only on request), '
                  'same number of outputs, same output functions, well formed, not larger', '; '.join(common[:2]), construct=f'{key}._transform over the circuit family')
         if R_post:
             ck.check(not post, R_post, m, fn, f'{key} folded over {len(fam)} model circuits x 2 visiting orders: stated post-condition (after the implied RemoveRedundantGates for the merging passes)',
@@ -557,23 +653,17 @@ def fold_pipelines(ck: Checker, R: str):
     on a list, the pipe operator (nested, mixed with lists), lists with repeated idempotent passes -- gives the circuit
     obtained by applying the constituent passes (with the pre-/post-passes each one declares) one after another."""
     repo = ck.repo
-    den = Denotations(repo)
-    ov = gate_overrides(den)
-    types = {t.var: t for t in ov.values() if isinstance(t, GateTypeVal)}
-    ov['cirbo.core.circuit.circuit.Circuit'] = lambda: PassModel(types['INPUT'])
-    it = Interp(repo, overrides=ov, max_steps=6_000_000)
-    it.real_super = True
-    it.instance_dunders = True
-    for g in ('linearize_transformers', 'linearize_reduce_transformers', 'as_distinct'):
-        it.eager_generators.add(f'{TRANSFORMER}.{g}')
+    # (instances of the repository's own Circuit class: the passes, the pipeline machinery, the traversals and the constructors run
+    # as they stand; results are compared as snapshots)
+    RB = RealBench(repo)
+    it = RB.it
+    types = RB.types
     tm = repo.mod(TRANSFORMER)
     cl = repo.mod(f'{SIMPL}.cleanup')
     T = it.global_value(tm, 'Transformer')
 
     def new(modname, cname, **kw):
-        m = repo.mod(f'{SIMPL}.{modname}')
-        it.steps = 0
-        return it.instantiate(RepoClass(m, m.cls(cname)), (), kw)
+        return RB.new_pass(modname, cname, **kw)
 
     def make():
         return {'RRG': new('remove_redundant_gates', 'RemoveRedundantGates'), 'RRGi': new('remove_redundant_gates', 'RemoveRedundantGates', allow_inputs_removal=True),
@@ -590,11 +680,11 @@ def fold_pipelines(ck: Checker, R: str):
         cur = c
         for p in passes_:
             it.steps = 0
+            RB.M.den.interp.steps = 0
             cur = it.getattr(p._cls.mod, None, p, '_transform')(cur)
-            cur.order = c.order
         return cur
 
-    fam = [x for x in HANDMADE] + family(ck.tier)[len(HANDMADE):len(HANDMADE) + (10 if ck.tier == 'quick' else 80)]
+    fam = [x for x in HANDMADE] + family(ck.tier)[len(HANDMADE):len(HANDMADE) + (4 if ck.tier == 'quick' else 60)]
     TC = it.global_value(tm, 'TransformerComposition')
 
     def mkcomp(members):
@@ -622,6 +712,11 @@ def fold_pipelines(ck: Checker, R: str):
         ('TransformerComposition([MDG, MUO]).transform(c)', lambda P, c: it.getattr(tm, None, mkcomp([P['MDG'], P['MUO']]), 'transform')(c), lambda P: [P['MDG'], P['MUO']]),
         ('apply_transformers(c, [TransformerComposition([MDG]), MEG])', lambda P, c: apply_t(c, [mkcomp([P['MDG']]), P['MEG']]), lambda P: [P['MDG'], P['MEG']]),
         ('(MUO | TransformerComposition([MDG, RRGi])).transform(c)', lambda P, c: it.getattr(tm, None, P['MUO'] | mkcomp([P['MDG'], P['RRGi']]), 'transform')(c), lambda P: [P['MUO'], P['MDG'], P['RRGi']]),
+        # the passes handed over as a one-shot iterator / generator (the signature says Iterable)
+        ('apply_transformers(c, iter([MUO, MDG]))', lambda P, c: apply_t(c, iter([P['MUO'], P['MDG']])), lambda P: [P['MUO'], P['MDG']]),
+        ('apply_transformers(c, (p for p in [RRG, MEG]))', lambda P, c: apply_t(c, (p_ for p_ in [P['RRG'], P['MEG']])), lambda P: [P['RRG'], P['MEG']]),
+        # no state may survive a call: a light cleanup after a heavy one is still the light pipeline
+        ('cleanup(c) after cleanup(c, use_heavy=True)', lambda P, c: (cleanup(c, use_heavy=True), cleanup(c))[1], lambda P: [P['RRG'], P['MUO'], P['MDG']]),
         ('apply_transformers(c, MUO | RRGi)', lambda P, c: apply_t(c, P['MUO'] | P['RRGi']), lambda P: [P['MUO'], P['RRGi']]),
         # a pass whose declared post-pass has dependencies of its own (they must be implied too)
         ('MUO with post-pass MDG: transform(c)', lambda P, c: (P['MUO']._d.__setitem__('_post_transformers', (P['MDG'],)), it.getattr(tm, None, P['MUO'], 'transform')(c))[1],
@@ -630,32 +725,41 @@ def fold_pipelines(ck: Checker, R: str):
     n = 0
     for name, run_api, members in scenarios:
         probs = []
-        for spec, outs in fam:
+        # (the single-pass scenarios are also run on the hand-made circuits stored users-first, as a bench text with forward references gives them)
+        runs = [(sp, ou, False) for sp, ou in fam] + ([(sp, ou, True) for sp, ou in HANDMADE] if name in LITERAL else [])
+        for spec, outs, users_first in runs:
             n += 1
             P = make()
-            c = build(types, spec, outs)
-            before = c.struct()
-            desc = f'{[(l, t) + tuple(o) for l, t, o in spec if t != "INPUT"]} outputs {list(outs)}'
+            c = RB.circuit(spec, outs, users_first)
+            cm_ = RB.model(c)
+            before = cm_.struct()
+            desc = f'{[(l, t) + tuple(o) for l, t, o in spec if t != "INPUT"]} outputs {list(outs)}' + (' (gates stored users-first)' if users_first else '')
             try:
                 it.steps = 0
+                RB.M.den.interp.steps = 0
                 got = run_api(P, c)
             except InterpRaise as e:
                 probs.append(f'raises {e.exc_name} on {desc}')
                 continue
-            if c.struct() != before:
+            if RB.model(c).struct() != before:
                 probs.append(f'the argument circuit was modified on {desc}')
                 continue
-            c2 = build(types, spec, outs)
+            if got is c:
+                probs.append(f'the argument object itself is returned instead of a new circuit on {desc}')
+                continue
+            c2 = RB.circuit(spec, outs, users_first)
             try:
                 want = seq(c2, [x for p in members(P) for x in lin(p)])
             except InterpRaise as e:
                 probs.append(f'sequential application raises {e.exc_name} on {desc}')
                 continue
-            if not isinstance(got, FakeCircuit) or got.struct() != want.struct():
-                probs.append(f'result {got.struct() if isinstance(got, FakeCircuit) else got!r} differs from applying the constituent passes one after another ({want.struct()}) on {desc}')
+            gm = RB.model(got) if isinstance(got, Instance) else None
+            wm = RB.model(want)
+            if gm is None or gm.struct() != wm.struct():
+                probs.append(f'result {gm.struct() if gm is not None else got!r} differs from applying the constituent passes one after another ({wm.struct()}) on {desc}')
             elif name in LITERAL:
                 # the stated effect of the pass, on what its public entry point returns
-                pp = post_problems(None, c, got, LITERAL[name], literal=True)
+                pp = post_problems(None, cm_, gm, LITERAL[name], literal=True)
                 if pp:
                     probs.append(f'{pp[0]} in the result of the public entry point on {desc}')
             if len(probs) > 2:
